@@ -92,6 +92,24 @@ def ftComplete {n : Nat} (ζi dt : α) (y : Fin n → α) : Fin n → α :=
 def iftComplete {n : Nat} (ζ dt : α) (y : Fin n → α) : Fin n → α :=
   fun j => fftshift (dft ζ (ifftshift y)) j * dt
 
+/-- what the upper-half branch writes before transforming: `yy[0:N] = y`, `yy[2N−k−1] = conj(y[k+1])` for
+`k = 0 … N−2`, `yy[N] = 0` (numpy.zeros) -/
+def hermExt {N : Nat} (conj : α → α) (y : Fin N → α) : Fin (2 * N) → α :=
+  fun m =>
+    if h : m.val < N then y ⟨m.val, h⟩
+    else if m.val = N then 0
+    else conj (y ⟨(2 * N - m.val) % N, Nat.mod_lt _ (by have := m.isLt; omega)⟩)
+
+/-- `get_Fourier_transform`, upper-half TimeAxis of `N` points: `2N·fftshift(ifft(yy))·dt` on the `2N`-point
+frequency axis; `ζi` stands for `e^{+2πi/(2N)}` -/
+def ftUpper {N : Nat} (conj : α → α) (ζi dt : α) (y : Fin N → α) : Fin (2 * N) → α :=
+  fun j => fftshift (dft ζi (hermExt conj y)) j * dt
+
+/-- `get_inverse_Fourier_transform` of a function on an upper-half FrequencyAxis (`2N` points): the complete inverse
+transform, of which the upper half `Y[N:2N]` is returned on the `N`-point time axis -/
+def iftUpper {N : Nat} (ζ c : α) (F : Fin (2 * N) → α) : Fin N → α :=
+  fun k => iftComplete ζ c F ⟨N + k.val, by have := k.isLt; omega⟩
+
 /-- the direct Fourier sum on centred axes: `Σ_m y[m] ζ^{((j−h)(m−h)) mod n}·dt`, `h = n//2` -/
 def directSum {n : Nat} (ζi dt : α) (y : Fin n → α) : Fin n → α :=
   fun j => sumFin n (fun m => y m * npow ζi (((j.val + n - n / 2) * (m.val + n - n / 2)) % n)) * dt
